@@ -287,12 +287,13 @@ impl Report {
                 known_hits.push(json!({"id": k.id, "cause": cause, "witnesses": count, "smallest": v.what}));
             } else {
                 unlisted += 1;
-                let slug = slugify(cause);
+                let slug = if cfg!(debug_assertions) { slugify(cause) } else { format!("release-{}", slugify(cause)) };
                 let dir = root.join("replays").join(&self.prop);
                 let _ = std::fs::create_dir_all(&dir);
                 let path = dir.join(format!("{}.json", slug));
                 let body = json!({
                     "property": self.prop,
+                    "profile": if cfg!(debug_assertions) { "debug-assertions" } else { "release" },
                     "cause": cause,
                     "what": v.what,
                     "witnesses_in_this_run": count,
@@ -361,11 +362,8 @@ impl Report {
             "wall_s": (self.start.elapsed().as_secs_f64() * 1000.0).round() / 1000.0,
             "violations": unlisted,
         });
-        let evdir = root.join("evidence");
-        let _ = std::fs::create_dir_all(&evdir);
-        let evpath = evdir.join(format!("{}.json", self.prop));
-        if let Err(e) = std::fs::write(&evpath, serde_json::to_string_pretty(&ev).unwrap() + "\n") {
-            self.machinery(&format!("cannot write evidence {}: {}", evpath.display(), e));
+        if let Err(e) = write_evidence(&root, &self.prop, ev) {
+            self.machinery(&format!("cannot write evidence: {}", e));
         }
         for l in &lines {
             println!("{}", l);
@@ -385,6 +383,39 @@ impl Report {
         );
         std::process::exit(if unlisted > 0 { 1 } else { 0 })
     }
+}
+
+/// Is this the second, release-profile pass of a check (debug assertions and overflow checks
+/// compiled out), run by the driver after the debug pass?
+pub fn release_replay() -> bool {
+    std::env::var_os("CLAPMC_RELEASE_REPLAY").is_some()
+}
+
+/// Write the evidence file. In the release-profile pass the debug pass's evidence is kept and the
+/// pass's own numbers are merged in under `coverage.release_profile_replay`.
+pub fn write_evidence(root: &std::path::Path, prop: &str, ev: Value) -> Result<(), String> {
+    let evdir = root.join("evidence");
+    let _ = std::fs::create_dir_all(&evdir);
+    let evpath = evdir.join(format!("{}.json", prop));
+    let out = if release_replay() {
+        let mut base: Value = std::fs::read_to_string(&evpath).ok().and_then(|t| serde_json::from_str(&t).ok()).unwrap_or_else(|| ev.clone());
+        let cov = &ev["coverage"];
+        let summary = json!({
+            "profile": "opt-level 2, debug-assertions off, overflow-checks off; explores exactly the configurations the debug pass found valid",
+            "evaluations": cov["evaluations"], "states": cov["states"], "transitions": cov["transitions"],
+            "outcome_histogram": cov["outcome_histogram"], "unlisted_violations": cov["unlisted_violations"],
+            "known_findings_seen": cov["known_findings_seen"], "exhaustive": cov["exhaustive"], "wall_s": ev["wall_s"],
+        });
+        base["coverage"]["release_profile_replay"] = summary;
+        let v = base["violations"].as_u64().unwrap_or(0) + ev["violations"].as_u64().unwrap_or(0);
+        base["violations"] = json!(v);
+        let w = base["wall_s"].as_f64().unwrap_or(0.0) + ev["wall_s"].as_f64().unwrap_or(0.0);
+        base["wall_s"] = json!(w);
+        base
+    } else {
+        ev
+    };
+    std::fs::write(&evpath, serde_json::to_string_pretty(&out).unwrap() + "\n").map_err(|e| format!("{}: {}", evpath.display(), e))
 }
 
 /// Replay mode: load the file, run `recheck` on its case, report.
@@ -478,4 +509,20 @@ pub fn slugify(s: &str) -> String {
     }
     let head: String = out.chars().take(60).collect();
     format!("{}-{:08x}", head.trim_matches('-'), (h & 0xffff_ffff) as u32)
+}
+
+
+/// Hand-over of the validity gate's verdicts from the debug pass to the release pass (the gate —
+/// clap's debug assertions — does not exist in a release build).
+pub fn save_valid(prop: &str, accepted: &[usize]) {
+    let p = verif_root().join(".work").join(format!("{}.valid.json", prop));
+    let _ = std::fs::create_dir_all(p.parent().unwrap());
+    let _ = std::fs::write(p, serde_json::to_string(accepted).unwrap());
+}
+
+pub fn load_valid(prop: &str) -> Option<std::collections::HashSet<usize>> {
+    let p = verif_root().join(".work").join(format!("{}.valid.json", prop));
+    let t = std::fs::read_to_string(p).ok()?;
+    let v: Vec<usize> = serde_json::from_str(&t).ok()?;
+    Some(v.into_iter().collect())
 }
